@@ -347,8 +347,10 @@ func (g *FG) DominatedByEdges(b *GNode, gen func(*GEdge) bool) (bool, string) {
 }
 
 // Must-forward dataflow over sets of string facts.
-//   gen(e)      facts established by crossing edge e
-//   trans(x,in) facts after executing vertex x given facts before it
+//
+//	gen(e)      facts established by crossing edge e
+//	trans(x,in) facts after executing vertex x given facts before it
+//
 // The result maps each vertex to the facts that hold on every path just before it.
 type FactSet map[string]bool
 
